@@ -63,6 +63,11 @@ func (x *Exec) cutAssert(st *State, pos token.Pos, cut string, recv *Val) {
 			g := x.cevalBool(c.Expr, x.invEnv(st, st.secStart, recv), c)
 			x.oblige(st, fmt.Sprintf("%s.%s.%s", x.top.Key, cut, c.Label), "guar", pos, c.Src, g)
 		}
+		// per-section guarantees: obligations on every atomic section, never assumed as rely
+		for _, c := range x.e.db.SectGuar {
+			g := x.cevalBool(c.Expr, x.invEnv(st, st.secStart, recv), c)
+			x.oblige(st, fmt.Sprintf("%s.%s.%s", x.top.Key, cut, c.Label), "sectguar", pos, c.Src, g)
+		}
 	}
 }
 
